@@ -345,6 +345,9 @@ func runZip(ctx *Ctx) {
 			if r.Chance(1, 25) {
 				// larger than any copy buffer (32 KiB) and not a multiple of it
 				content = strings.Repeat("0123456789abcdef-", 4099)
+				if n := []int{0, 32767, 32768, 32769, 65536, 65537}[r.Intn(6)]; n > 0 {
+					content = strings.Repeat("x", n-1) + "E" // exactly at / next to the usual copy-buffer sizes
+				}
 			}
 			tree = append(tree, zh(p)+":"+zh(content))
 		}
